@@ -61,7 +61,7 @@ package graph
 //@   ensures cntPos(s, k) == 0
 //@   by induction k
 //@ lemma rowCntZero(s []byte, v int, k int)
-//@   requires 0 <= k && k <= v && v <= 16777216 && tri(v) + k <= len(s) && (forall t in 0..len(s): s[t] == 0)
+//@   requires 0 <= k && k <= v && v <= 16777216 && tri(v) + k <= len(s) && (forall t in tri(v)..tri(v)+k: s[t] == 0)
 //@   ensures rowCnt(s, v, k) == 0
 //@   by induction k using triMono
 //@ lemma colCntZero(s []byte, v int, k int)
@@ -206,13 +206,13 @@ package graph
 //@   by induction k
 //@   pattern cntPos(s1, k), cntPos(s2, k)
 //@ lemma rowCntExt(s1 []byte, s2 []byte, v int, k int)
-//@   requires 0 <= k && k <= v && v <= 16777216 && len(s1) == len(s2) && tri(v) + k <= len(s1) && (forall t in 0..len(s1): s1[t] == s2[t])
+//@   requires 0 <= k && k <= v && v <= 16777216 && tri(v) + k <= len(s1) && tri(v) + k <= len(s2) && (forall t in tri(v)..tri(v)+k: s1[t] == s2[t])
 //@   ensures rowCnt(s1, v, k) == rowCnt(s2, v, k)
 //@   by induction k using triMono
 //@   opt axiomatize=tri
 //@   pattern rowCnt(s1, v, k), rowCnt(s2, v, k)
 //@ lemma colCntExt(s1 []byte, s2 []byte, v int, k int)
-//@   requires 0 <= v && v < k && k <= 16777216 && len(s1) == len(s2) && tri(k) <= len(s1) && (forall t in 0..len(s1): s1[t] == s2[t])
+//@   requires 0 <= v && v < k && k <= 16777216 && tri(k) <= len(s1) && tri(k) <= len(s2) && (forall t in 0..tri(k): s1[t] == s2[t])
 //@   ensures colCnt(s1, v, k) == colCnt(s2, v, k)
 //@   by induction k using triMono
 //@   opt axiomatize=tri
@@ -230,6 +230,14 @@ package graph
 
 //@ pred inInts(x int, s []int) = exists k in 0..len(s): s[k] == x
 
+// the count of the first tri(v)+k bytes splits into the rows before v and the start of row v
+//@ lemma cntPosRow(s []byte, v int, k int)
+//@   requires 0 <= k && k <= v && v <= 16777216 && tri(v) + k <= len(s)
+//@   ensures cntPos(s, tri(v) + k) == cntPos(s, tri(v)) + rowCnt(s, v, k)
+//@   by induction k using triMono
+//@   opt axiomatize=tri
+//@ pred distinctInts(s []int) = forall a in 0..len(s): forall b in a+1..len(s): s[a] != s[b]
+
 //@ func (*DenseGraph).AddVertex
 //@   requires sizesDense(g) && g.NumberOfVertices < 16777216 && ref(neighbours) != ref(g.DegreeSequence)
 //@   requires forall k in 0..len(neighbours): 0 <= neighbours[k] && neighbours[k] < g.NumberOfVertices
@@ -237,7 +245,12 @@ package graph
 //@   ensures sizesDense(g) && g.NumberOfVertices == old(g.NumberOfVertices) + 1
 //@   ensures forall k in 0..tri(old(g.NumberOfVertices)): g.Edges[k] == old(g.Edges)[k]
 //@   ensures forall u in 0..old(g.NumberOfVertices): g.Edges[tri(old(g.NumberOfVertices)) + u] > 0 <==> inInts(u, neighbours)
-//@   opt lemmas=triMono
+//@   ensures [cntM] (old(countsOK(g)) && distinctInts(neighbours)) ==> g.NumberOfEdges == cntPos(g.Edges, tri(g.NumberOfVertices))
+//@   ensures [cntD] (old(countsOK(g)) && distinctInts(neighbours)) ==> forall x in 0..g.NumberOfVertices: g.DegreeSequence[x] == rowCnt(g.Edges, x, x) + colCnt(g.Edges, x, g.NumberOfVertices)
+//@   use at exit cntPosRow(g.Edges, old(g.NumberOfVertices), old(g.NumberOfVertices))
+//@   opt lemmas=triMono,rowCntUpd,cntPosExt,rowCntExt,colCntExt,cntPosBound,rowCntBound,colCntBound,rowCntZero
+//@   opt axiomatize=tri,updAt
+//@   opt patterns=simple
 //@   opt wrapcounters=NumberOfEdges,DegreeSequence
 //@   use triStep(g.NumberOfVertices - 1)
 //@   loop 1
@@ -252,23 +265,43 @@ package graph
 //@     invariant g.NumberOfVertices == old(g.NumberOfVertices) && len(g.Edges) == newSize && len(g.DegreeSequence) == g.NumberOfVertices && sameslice(g.DegreeSequence, old(g.DegreeSequence))
 //@     invariant forall k in 0..oldSize: g.Edges[k] == old(g.Edges)[k]
 //@     invariant forall u in 0..old(g.NumberOfVertices): g.Edges[oldSize + u] > 0 <==> (exists t in 0..rangeindex+1: neighbours[t] == u)
+//@     invariant distinctInts(neighbours) ==> forall u in 0..old(g.NumberOfVertices): g.DegreeSequence[u] == old(g.DegreeSequence)[u] + (g.Edges[oldSize + u] > 0 ? 1 : 0) || !old(countsOK(g))
+//@     invariant distinctInts(neighbours) ==> rowCnt(g.Edges, old(g.NumberOfVertices), old(g.NumberOfVertices)) == rangeindex + 1
+//@     use at back updAtIntro(iter(g.Edges), g.Edges, oldSize + v)
 //@     decreases len(neighbours) - rangeindex
 
-// L1 (sizes, freshness, index safety, termination); the edge relation of the
-// result is covered by the bounded stand-in.
+// InducedSubgraph(V): vertex a of the result is V[a]; counts agree with the adjacency.
 //@ func (*DenseGraph).InducedSubgraph
 //@   requires sizesDense(g) && len(V) <= 16777216
 //@   requires forall k in 0..len(V): 0 <= V[k] && V[k] < g.NumberOfVertices
 //@   ensures fresh(result) && sizesDense(as_DenseGraph(result)) && as_DenseGraph(result).NumberOfVertices == len(V)
 //@   ensures fresh(as_DenseGraph(result).Edges) && fresh(as_DenseGraph(result).DegreeSequence)
-//@   opt lemmas=triMono
-//@   opt wrapcounters=m,degrees
+//@   ensures [relation] forall b in 0..len(V): forall a in 0..b: edgeD(g, V[a], V[b]) <==> as_DenseGraph(result).Edges[tri(b)+a] > 0
+//@   ensures [counts] countsOK(as_DenseGraph(result))
+//@   opt lemmas=triMono,cntPosExt,rowCntExt,colCntExt
+//@   opt axiomatize=tri
+//@   opt splitfirst=all
+//@   opt patterns=simple
 //@   loop 1
-//@     invariant 1 <= j && (j <= len(V) || (len(V) == 0 && j == 1)) && index == tri(j) && n == len(V) && len(edges) == tri(n) && len(degrees) == n
+//@     invariant 1 <= j && (j <= len(V) || (len(V) == 0 && j == 1)) && index == tri(j) && n == len(V) && len(edges) == tri(n) && len(degrees) == n && fresh(edges) && fresh(degrees)
+//@     invariant forall t in index..tri(n): edges[t] == 0
+//@     invariant forall b in 0..j: forall a in 0..b: edgeD(g, V[a], V[b]) <==> edges[tri(b)+a] > 0
+//@     invariant 0 <= m && m <= index && m == cntPos(edges, index)
+//@     invariant forall x in 0..n: 0 <= degrees[x] && degrees[x] <= index
+//@     invariant forall x in 0..j: x < n ==> degrees[x] == rowCnt(edges, x, x) + colCnt(edges, x, j)
+//@     invariant forall x in j..n: degrees[x] == 0
 //@     use triStep(j-1)
 //@     decreases len(V) - j
 //@   loop 2
-//@     invariant 0 <= i && i <= j && 1 <= j && j < len(V) && index == tri(j) + i && n == len(V) && len(edges) == tri(n) && len(degrees) == n
+//@     invariant 0 <= i && i <= j && 1 <= j && j < len(V) && index == tri(j) + i && n == len(V) && len(edges) == tri(n) && len(degrees) == n && fresh(edges) && fresh(degrees)
+//@     invariant forall b in 0..j: forall a in 0..b: edgeD(g, V[a], V[b]) <==> edges[tri(b)+a] > 0
+//@     invariant forall t in index..tri(n): edges[t] == 0
+//@     invariant forall a in 0..i: edgeD(g, V[a], V[j]) <==> edges[tri(j)+a] > 0
+//@     invariant 0 <= m && m <= index && m == cntPos(edges, index)
+//@     invariant forall x in 0..n: 0 <= degrees[x] && degrees[x] <= index
+//@     invariant forall x in 0..j: degrees[x] == rowCnt(edges, x, x) + colCnt(edges, x, j) + ((x < i && edges[tri(j)+x] > 0) ? 1 : 0)
+//@     invariant degrees[j] == rowCnt(edges, j, i)
+//@     invariant forall x in j+1..n: degrees[x] == 0
 //@     use triStep(j-1)
 //@     decreases j - i
 
